@@ -61,7 +61,7 @@ impl RoundTrip {
         let w = if rng.chance(1, 6) { WritePlan::plain() } else { WritePlan::generate(rng, 64) };
         let r = if rng.chance(1, 6) { ReadPlan::plain() } else { ReadPlan::generate(rng, 64) };
         let via_fs = if rng.chance(1, 5) { Some(FsPlan::generate(rng, 32)) } else { None };
-        RoundTrip { payloads, w, r, split: rng.chance(1, 4), via_fs, via_fifo: rng.chance(1, 300) }
+        RoundTrip { payloads, w, r, split: rng.chance(1, 4), via_fs, via_fifo: rng.chance(1, 200) }
     }
 
     /// One large structure (around 2^16 / 2^17 / 2^19 items) with coarse chunking, optionally followed by a small one.
@@ -172,7 +172,7 @@ impl RoundTrip {
                 },
                 Err(p) => return out.fail(v("harness", "probe", format!("query battery panicked on {}: {}", self.payloads[i].describe(), p))),
             }
-            if loaded.size_in_elements() != val.size_in_elements() {
+            if !val.partial_load() && loaded.size_in_elements() != val.size_in_elements() {
                 return out.fail(v("loaded-size", tn, format!("loaded value reports {} elements, original {}", loaded.size_in_elements(), val.size_in_elements())));
             }
         }
@@ -200,27 +200,41 @@ impl RoundTrip {
         out.stats.probe_if(r.stats.eintr > 0, "EINTR during load");
         out.stats.probe_if(w.stats.eintr > 0, "EINTR during serialize");
 
-        // Pipe route: load_from on a FIFO.
-        if self.via_fifo && expected[0].len() <= (1 << 20) {
+        // Pipe route: every payload goes through one FIFO, each with its own load_from(path) call. The read
+        // position belongs to the pipe, not to the handle: a loader that takes more than its structure from the
+        // path robs the next call. A run of zero bytes follows the last structure, so that a robbed call finds
+        // something (wrong) to read instead of waiting for ever.
+        let total: usize = expected.iter().map(|e| e.len()).sum();
+        if self.via_fifo && total <= (1 << 20) {
             use std::io::Write as _;
             let path = crate::scratch::file("fifo");
             let cpath = std::ffi::CString::new(path.to_string_lossy().as_bytes()).unwrap();
             if unsafe { libc::mkfifo(cpath.as_ptr(), 0o600) } == 0 {
-                let bytes = expected[0].clone();
+                // A reader of our own that never reads: keeps the pipe (and what is in it) alive between two opens.
+                let keep = std::fs::OpenOptions::new().read(true).custom_flags(libc::O_NONBLOCK).open(&path);
+                let mut bytes: Vec<u8> = Vec::with_capacity(total + (128 << 10));
+                for e in expected.iter() { bytes.extend_from_slice(e); }
+                bytes.resize(total + (128 << 10), 0);
                 let wpath = path.clone();
+                // The writer blocks in the trailer until the last reader is gone (EPIPE), so its end stays open throughout.
                 let writer = std::thread::spawn(move || { if let Ok(mut f) = std::fs::OpenOptions::new().write(true).open(&wpath) { let _ = f.write_all(&bytes); } });
-                let val = &vals[0];
-                let res = catch(|| val.load_from(&path));
-                // Release the writer if the loader never opened the pipe or stopped reading early.
+                let mut verdict: Option<Violation> = None;
+                for (i, val) in vals.iter().enumerate() {
+                    match catch(|| val.load_from(&path)) {
+                        Ok(Ok(l)) => if !val.eq_dyn(l.as_ref()) { verdict = Some(v("load-not-equal", "load_from", format!("{}: structure {} of {} loaded from a named pipe differs", val.type_name(), i + 1, vals.len()))); },
+                        Ok(Err(e)) => verdict = Some(v("load-error", "load_from", format!("{} ({} bytes, structure {} of {}) arriving through a named pipe: load_from failed: {}", val.type_name(), expected[i].len(), i + 1, vals.len(), e))),
+                        Err(p) => verdict = Some(v("panic", "load_from", p)),
+                    }
+                    if verdict.is_some() { break; }
+                }
+                drop(keep);
+                // Release the writer if no loader ever opened the pipe.
                 if let Ok(f) = std::fs::OpenOptions::new().read(true).custom_flags(libc::O_NONBLOCK).open(&path) { drop(f); }
                 let _ = writer.join();
                 let _ = std::fs::remove_file(&path);
-                match res {
-                    Ok(Ok(l)) => if !val.eq_dyn(l.as_ref()) { return out.fail(v("load-not-equal", "load_from", format!("{}: value loaded from a named pipe differs", val.type_name()))); },
-                    Ok(Err(e)) => return out.fail(v("load-error", "load_from", format!("{} ({} bytes) arriving through a named pipe: load_from failed: {}", val.type_name(), expected[0].len(), e))),
-                    Err(p) => return out.fail(v("panic", "load_from", p)),
-                }
+                if let Some(viol) = verdict { return out.fail(viol); }
                 out.stats.probe("load_from on a named pipe");
+                out.stats.probe_if(vals.len() >= 2, "several structures through one named pipe, one load_from each");
             }
         }
 
@@ -228,7 +242,8 @@ impl RoundTrip {
         if let Some(plan) = &self.via_fs {
             let fs = FsSession::start(plan.clone(), 2 * expected[0].len());
             let path = crate::scratch::file("simroundtrip");
-            fs.put(&path, vec![0xEE; 3]); // pre-existing content must be truncated away
+            // Pre-existing content must be truncated away: three bytes, or more bytes than will be written.
+            fs.put(&path, vec![0xEE; if (expected[0].len() / 8) % 2 == 0 { 3 } else { expected[0].len() + 40 }]);
             let val = &vals[0];
             let tn = val.type_name();
             match catch(|| val.serialize_to(&path)) {
@@ -556,6 +571,14 @@ fn answers(bv: &BitVector, mask: u8) -> Vec<u64> {
         out.push(p2(bv.one_iter().nth(k))); out.push(p2(bv.one_iter().nth_back(k))); out.push(p2(bv.one_iter().rev().nth(k)));
         out.push(p2(bv.zero_iter().nth(k))); out.push(p2(bv.zero_iter().nth_back(k))); out.push(p2(bv.zero_iter().rev().nth(k)));
         out.push(bv.iter().nth(k).map(|b| b as u64).unwrap_or(2)); out.push(bv.iter().nth_back(k).map(|b| b as u64).unwrap_or(2));
+    }
+    // Consuming adapters after reads from both ends (bounded: every subset for short vectors, the two extreme
+    // subsets up to 2^16 bits).
+    if n <= 256 || ((mask == 0 || mask == 7) && n <= 1 << 16) {
+        let full = n <= 256;
+        out.extend(crate::payload::consume_digest(|| bv.iter(), full));
+        out.extend(crate::payload::consume_digest(|| bv.one_iter(), full));
+        out.extend(crate::payload::consume_digest(|| bv.zero_iter(), full));
     }
     if mask & 2 != 0 && bv.count_ones() > 0 { for k in [0usize, 64, 300] { let mut it = bv.select_iter(bv.count_ones() / 3); out.push(p2(it.nth_back(k))); out.push(p2(it.next())); } }
     if mask & 4 != 0 && bv.count_zeros() > 0 { for k in [0usize, 64, 300] { let mut it = bv.select_zero_iter(bv.count_zeros() / 3); out.push(p2(it.nth_back(k))); out.push(p2(it.next())); } }
